@@ -186,6 +186,112 @@ def o1_reload(chk, prog):
     chk.end(ob)
 
 
+# ------------------------------------------------------------------------------------------------ O1b which reloads rebuild the pools
+@expectation('c14_reload_diff')
+def c14_reload_diff():
+    def f(res):
+        r = res[0]
+        if 'panic' in r or 'error' in r:
+            return ('panic' in r), 'native: %r' % (r,)
+        return (not r.get('as_in_new_file', True), 'native: after reload_config (%s) returned %s the pools in force are %r' % (r.get('scenario'), r.get('result'), r.get('pools_in_force')))
+    return f
+
+
+def o1_reload_diff(chk, prog, scenario):
+    """reload_config on STRUCTURED old / new configurations (pools as a real map of placeholder definitions compared by identity): the pools
+    are rebuilt (ConnectionPool::from_config is called) iff the accepted new file differs from the old one -- in a changed, a removed OR an
+    added pool, or in the general section."""
+    ob = chk.begin('O1b-reload-%s' % scenario, 'config::reload_config, old file = pools {a, b}; new file: %s. from_config must run iff the new configuration differs' %
+                   {'same': 'identical', 'changed': 'pool a redefined', 'removed': 'pool b removed', 'added': 'pool c added, a and b untouched',
+                    'general': 'only the general section differs'}[scenario], {'scenario': scenario})
+    rl = fn(prog, 'config::reload_config')
+    ip = chk.interp(prog, 'O1b-reload-%s' % scenario)
+    install_stats_noops(ip)
+    install_env(ip)
+    ip.overrides[:] = [(rx, h) for rx, h in ip.overrides if 'Config as PartialEq' not in rx.pattern and 'toml::from_str' not in rx.pattern]
+
+    def cfg(pools, gen):
+        names = prog.src.structs['Config']
+        pm = MapV('hashmap')
+        for n, pid in pools:
+            pm.entries.append([rstring(n), Cell(Opaque('Fld', 'pool', ('pool', n, pid)), 'pool')])
+        vals = {'path': rstring('pgcat.toml'), 'general': Opaque('Fld', 'general', ('general', gen)), 'plugins': Opaque('Fld', 'plugins', ('plugins', 0)), 'pools': pm}
+        return Agg([vals[n] for n in names], 'Config', list(names))
+    old_pools = [('a', 1), ('b', 1)]
+    new_pools, new_gen = {'same': (old_pools, 0), 'changed': ([('a', 2), ('b', 1)], 0), 'removed': ([('a', 1)], 0),
+                          'added': (old_pools + [('c', 1)], 0), 'general': (old_pools, 1)}[scenario]
+
+    def ph(ip_, v):
+        for _ in range(3):
+            if isinstance(v, Ptr):
+                v = deref(ip_, v)
+        return v
+
+    def fall(c, args):
+        from mirsym.interp import MODELS, CallCtx
+        for rx, h in MODELS:
+            m = rx.search(c.callee)
+            if m:
+                return h(CallCtx(c.ip, c.callee, c.dest_ty, m, c.frame, c.argops), *args)
+        cands = c.ip.prog.lookup(c.callee)
+        if cands:
+            return c.ip.call_function(c.ip.pick_candidate(c.callee, cands, args, c.dest_ty, c.frame, c.argops), args)
+        raise Inconclusive('no MIR and no model for callee: ' + c.callee)
+
+    def m_eq(c, a, b):
+        x, y = ph(c.ip, a), ph(c.ip, b)
+        neg = c.m.group(1) == 'ne'
+        if isinstance(x, Opaque) and x.ty == 'Fld' and isinstance(y, Opaque) and y.ty == 'Fld':
+            return BV(1, int((x.data == y.data) != neg))
+        if neg and not c.ip.prog.lookup(c.callee):
+            # (`ne` is the provided method of PartialEq: !eq)
+            cands = c.ip.prog.lookup(c.callee[:-2] + 'eq')
+            if cands:
+                r = c.ip.call_function(c.ip.pick_candidate(c.callee[:-2] + 'eq', cands, [a, b], c.dest_ty, c.frame, c.argops), [a, b])
+                return BV(1, 1 - r.v) if r.concrete else bv(1, ~r.z())
+        if isinstance(x, MapV) and isinstance(y, MapV):
+            def key(e):
+                return bytes(b_.v for b_ in e[0].items)
+            dx = {key(e): e[1].val.data for e in x.entries}
+            dy = {key(e): e[1].val.data for e in y.entries}
+            return BV(1, int((dx == dy) != neg))
+        return fall(c, [a, b])
+
+    def m_hash_value(c, p):
+        v = ph(c.ip, p)
+        if isinstance(v, Opaque) and v.ty == 'Fld':
+            ids = c.ip.env.setdefault('hash_ids', {})
+            return BV(64, 1000 + ids.setdefault(v.data[1:] if v.data[0] == 'pool' else v.data, len(ids)))
+        return fall(c, [p])
+    ip.overrides[:0] = [(re.compile(r'^<.* as (?:std::cmp::)?PartialEq(?:<.*>)?>::(eq|ne)$'), m_eq),
+                        (re.compile(r'^(?:config::)?Pool::hash_value$'), m_hash_value),
+                        (re.compile(r'^toml::from_str::<'), lambda c, s: EnumV(BV(64, 0), {'Ok': [cfg(new_pools, new_gen)]}, 'Result'))]
+    ip.env_defaults = None
+
+    def harness(ip_):
+        ip_.env['config_current'] = cfg(old_pools, 0)
+        csm = Ptr(Cell(Agg([MapV('hashmap')], 'Lock'), 'csmap'))
+        r = ip_.drive(ip_.call_function(rl, [csm]))
+        evs = ip_.env.get('events', [])
+        if any(e.endswith(':err') and e.split(':')[0] in STAGES for e in evs):
+            return          # the file was not accepted: O1-reload's subject
+        ob.nontrivial += 1
+        rebuilt = any(e.startswith('from_config') for e in evs)
+        want = scenario != 'same'
+        if rebuilt != want:
+            chk.report(ob, 'C14/O1b/reload-diff/' + scenario, 'reload_config with a valid file (%s): the pools are %s' %
+                       (scenario, 'NOT rebuilt although the configuration changed: the new definition is not in effect' if want else 'rebuilt although nothing changed'),
+                       {'events': evs}, {'commands': [{'op': 'reload_diff', 'scenario': scenario}], 'expect': ['c14_reload_diff']})
+        if len(ob.samples) < 2:
+            ob.samples.append({'events': evs, 'rebuilt': rebuilt})
+    try:
+        ip.explore(harness)
+    except Inconclusive as e:
+        chk.note_inconclusive('O1b-reload-%s: %s' % (scenario, e))
+    chk.absorb(ob, ip)
+    chk.end(ob)
+
+
 # ------------------------------------------------------------------------------------------------ O2 pool reuse / removal
 @expectation('c14_pools')
 def c14_pools():
@@ -428,7 +534,13 @@ def main(chk):
     ]
     prog = chk.program('on')
     o1_parse(chk, prog)
-    o1_reload(chk, prog)
+    try:
+        o1_reload(chk, prog)
+    except Inconclusive as e:
+        # (this obligation keeps the two configurations opaque; a reload that looks INTO them is judged by O1b below)
+        chk.note_inconclusive('O1-reload: %s' % e)
+    for sc in ('same', 'changed', 'removed', 'added', 'general'):
+        o1_reload_diff(chk, prog, sc)
     o2_pools(chk, prog)
     o3_identity(chk, prog, POOL_TREE + ['Config', 'General'])
 
